@@ -1,9 +1,137 @@
 import OdcGeo.Model.C05
 namespace OdcGeo.C05.Drv
-open OdcGeo OdcGeo.IO
+open OdcGeo OdcGeo.IO OdcGeo.C05
+
+/-- `16` or `16x32` (`(b1, b2)`) -/
+def parseBlk? (s : String) : Option Blk :=
+  match s.splitOn "x" with
+  | [b] => (parseNat? b).map Blk.one
+  | [a, b] => do let a ← parseNat? a; let b ← parseNat? b; pure (.two a b)
+  | _ => none
+
+def fmtBlk : Blk → String
+  | .one b => toString b
+  | .two a b => s!"{a}x{b}"
+
+/-- `planes;y;x;ty;tx` -/
+def parseMeta? (s : String) : Option Meta :=
+  match (s.splitOn ";").mapM parseNat? with
+  | some [p, y, x, ty, tx] => some ⟨p, ⟨y, x⟩, ⟨ty, tx⟩⟩
+  | _ => none
+
+/-- `l;p;y;x;sz` -/
+def parseObs? (s : String) : Option Obs :=
+  match s.splitOn ";" with
+  | [l, p, y, x, sz] => do
+    let l ← parseNat? l; let p ← parseInt? p; let y ← parseInt? y; let x ← parseInt? x
+    let sz ← parseNat? sz
+    pure ⟨l, p, y, x, sz⟩
+  | _ => none
+
+/-- `N` or `gy,gx,a;b;c;d;e;f` -/
+def parseGbox? (s : String) : Option (Option (YX × Aff)) :=
+  if s = "N" then some none
+  else match s.splitOn "," with
+    | [gy, gx, a] => do
+      let gy ← parseNat? gy; let gx ← parseNat? gx; let a ← parseAff? a
+      pure (some (⟨gy, gx⟩, a))
+    | _ => none
+
+def parseYX? (s : String) : Option (Option YX) :=
+  if s = "N" then some none
+  else match (s.splitOn ";").mapM parseNat? with
+    | some [y, x] => some (some ⟨y, x⟩)
+    | _ => none
+
+def fmtNat (n : Nat) : String := toString n
+
+def fmt3 (t : Nat × Nat × Nat) : String := s!"{t.1};{t.2.1};{t.2.2}"
+def fmt4 (t : Nat × Nat × Nat × Nat) : String := s!"{t.1};{t.2.1};{t.2.2.1};{t.2.2.2}"
+
+def fmtLevel (planes : Nat) (l : Level) : String :=
+  let m : Meta := ⟨planes, l.shape, l.tile⟩
+  s!"{l.shape.y},{l.shape.x},{l.tile.y},{l.tile.x},{m.chunked.y},{m.chunked.x},{m.numTiles}," ++
+    fmtOpt fmtAff l.aff
+
+def fmtCog (c : Cog) : String :=
+  s!"{c.axis.toStr} {c.nsamples} {c.planes} {c.nlevels} " ++ "|".intercalate (c.levels.map (fmtLevel c.planes))
+
+def fmtInfo (info : TileInfo) : String :=
+  "|".intercalate (info.map fun (os, ns) => fmtList fmtNat os ++ ":" ++ fmtList fmtNat ns)
 
 def run (args : List String) : Option String :=
   match args with
+  | ["adj", b, d] => do
+    let b ← parseNat? b; let d ← parseNat? d
+    pure (fmtNat (adjustBlocksize b d))
+  | ["norm", b] => do
+    let b ← parseBlk? b
+    let t := normBlocksize b
+    pure s!"{t.y} {t.x}"
+  | ["nov", b, d] => do
+    let b ← parseNat? b; let d ← parseNat? d
+    pure (fmtNat (numOverviews b d))
+  | ["alup", x, a] => do
+    let x ← parseNat? x; let a ← parseNat? a
+    pure (fmtNat (alignUp x a))
+  | ["pow2", x] => do
+    let x ← parseNat? x
+    pure (fmtNat (alignDownPow2 x))
+  | ["spec", y, x, ty, tx, mp] => do
+    let y ← parseNat? y; let x ← parseNat? x; let ty ← parseNat? ty; let tx ← parseNat? tx
+    let mp ← parseOpt? parseNat? mp
+    let (p, t, n) := computeCogSpec ⟨y, x⟩ ⟨ty, tx⟩ mp
+    pure s!"{p.y} {p.x} {t.y} {t.x} {n}"
+  | ["yaxis", sh, g] => do
+    let sh ← parseList? parseNat? sh; let g ← parseYX? g
+    pure (fmtRes (fun (a, k) => s!"{a.toStr} {k}") (yaxisFromShape sh g))
+  | ["cog", sh, g, bs] => do
+    let sh ← parseList? parseNat? sh; let g ← parseGbox? g; let bs ← parseList? parseBlk? bs
+    pure (fmtRes fmtCog (makeEmptyCog sh g bs))
+  | ["cogpre", sh, g, bs] => do
+    let sh ← parseList? parseNat? sh; let g ← parseGbox? g; let bs ← parseList? parseBlk? bs
+    pure (fmtRes fmtCog (makeEmptyCogPreFix sh g bs))
+  | ["cogdef", sh, g, cy, cx] => do
+    let sh ← parseList? parseNat? sh; let g ← parseGbox? g
+    let cy ← parseNat? cy; let cx ← parseNat? cx
+    pure (fmtRes fmtCog (makeEmptyCog sh g (defaultBlocksize cy cx)))
+  | ["defblk", cy, cx] => do
+    let cy ← parseNat? cy; let cx ← parseNat? cx
+    pure (fmtList fmtBlk (defaultBlocksize cy cx))
+  | ["flat", m, s, y, x] => do
+    let m ← parseMeta? m; let s ← parseInt? s; let y ← parseInt? y; let x ← parseInt? x
+    pure (fmtRes fmtNat (m.flatTileIdx s y x))
+  | ["ntiles", m] => do
+    let m ← parseMeta? m
+    pure s!"{m.chunked.y} {m.chunked.x} {m.numTiles}"
+  | ["tidx", m] => do
+    let m ← parseMeta? m
+    pure (fmtList fmt3 m.tidx)
+  | ["tidxp", m, s] => do
+    let m ← parseMeta? m; let s ← parseNat? s
+    pure (fmtRes (fmtList fmt3) (m.tidxPlane s))
+  | ["cogtidx", ms] => do
+    let ms ← parseList? parseMeta? ms
+    pure (fmtList fmt4 (cogTidx ms))
+  | ["order", ms] => do
+    let ms ← parseList? parseMeta? ms
+    pure (fmtList fmt4 (writeOrder ms))
+  | ["tinfo", ms, start, obs] => do
+    let ms ← parseList? parseMeta? ms; let start ← parseNat? start
+    let obs ← parseList? parseObs? obs
+    pure (fmtRes fmtInfo (extractTileInfo ms obs start))
+  | ["patch", ms, hdr, obs] => do
+    let ms ← parseList? parseMeta? ms; let hdr ← parseNat? hdr
+    let obs ← parseList? parseObs? obs
+    pure (fmtRes fmtInfo (patchHdr ms obs hdr))
+  | ["pad", n, t, i] => do
+    let n ← parseNat? n; let t ← parseNat? t; let i ← parseNat? i
+    let (a, b) := tilePad n t i
+    pure s!"{a} {b} {blockExtent n t i}"
+  | ["padcog", sy, sx, py, px] => do
+    let sy ← parseNat? sy; let sx ← parseNat? sx; let py ← parseNat? py; let px ← parseNat? px
+    let ((a, b), (c, d)) := padToCog ⟨sy, sx⟩ ⟨py, px⟩
+    pure s!"{a} {b} {c} {d}"
   | _ => none
 
 end OdcGeo.C05.Drv
